@@ -146,7 +146,7 @@ type c03Write struct {
 
 const c03Sentinel = 12345.678
 
-var c03CallerSliceWritten int
+var c03CallerSliceWritten, c03Calls, c03Hybrid int
 
 func c03RunImpl(bs []float64, ops []float64, isWrite []bool) (panicked bool, outs []c03Write) {
 	var h prometheus.Histogram
@@ -167,7 +167,19 @@ func c03RunImpl(bs []float64, ops []float64, isWrite []bool) (panicked bool, out
 			}
 			in = backing[:len(bs)] // non-nil even when empty
 		}
-		h = prometheus.NewHistogram(prometheus.HistogramOpts{Name: "h", Help: "h", Buckets: in})
+		opts := prometheus.HistogramOpts{Name: "h", Help: "h", Buckets: in}
+		c03Calls++
+		if len(bs) > 0 && c03Calls%3 == 0 {
+			// classic buckets keep their le semantics when native buckets are maintained next to them, also while the
+			// native side hits its bucket limit (resolution halving / zero-bucket widening swap and merge the counts)
+			opts.NativeHistogramBucketFactor = 1.1
+			opts.NativeHistogramMaxBucketNumber = 3
+			if c03Calls%2 == 0 {
+				opts.NativeHistogramMaxZeroThreshold = 1
+			}
+			c03Hybrid++
+		}
+		h = prometheus.NewHistogram(opts)
 	}()
 	defer func() {
 		for k := range backing {
@@ -282,6 +294,7 @@ func runC03(c *cli.Ctx) error {
 		}
 		w.Add(emit.Tup(emit.FL(bs), emit.L(opT), impl), nobs >= 2 && !p, tags...)
 	}
+	w.Extra["runs_with_native_buckets_and_bucket_limit_next_to_the_classic_ones"] = c03Hybrid
 	if c03CallerSliceWritten > 0 {
 		w.Extra["direct_failures"] = []map[string]interface{}{{"index": -1, "what": fmt.Sprintf("in %d cases the caller's Buckets array was written to (inside the layout or in its spare capacity)", c03CallerSliceWritten)}}
 	}
